@@ -1243,6 +1243,8 @@ class Manifest:
             source = self._manifest[target]
             if os.path.isabs(target):
                 raise experiment.model.errors.FlowIRManifestKeyIsAbsolutePath(target)
+            if os.path.pardir in target.split(os.path.sep):
+                raise experiment.model.errors.FlowIRManifestKeyOutsideInstance(target)
             try:
                 _, method = source.rsplit(':', 1)
             except ValueError:
